@@ -152,6 +152,7 @@ pub struct Exec {
     follower: Option<tokio::sync::mpsc::Receiver<Frame>>,
     pub reads_done: u64,
     pub outcome: Vec<String>,
+    pub time_frames: u64,
 }
 
 impl Exec {
@@ -179,6 +180,7 @@ impl Exec {
             follower: None,
             reads_done: 0,
             outcome: vec![],
+            time_frames: 0,
         };
         e.open();
         e
@@ -412,7 +414,13 @@ impl Exec {
                         .cas_insert_sync(b.as_bytes())
                         .expect("cas insert")
                 });
-                let ttl_v = parse_ttl_opt(ttl);
+                let mut ttl_v = parse_ttl_opt(ttl);
+                // expiry instants of different time frames are kept a second apart, so that their
+                // order never depends on the millisecond at which the ids happened to be generated
+                if let Some(TTL::Time(d)) = ttl_v {
+                    self.time_frames += 1;
+                    ttl_v = Some(TTL::Time(d + Duration::from_millis(1000 * self.time_frames)));
+                }
                 let fr = Frame::builder(topic.clone(), ctx_id)
                     .maybe_hash(hash.clone())
                     .maybe_meta(meta.clone())
